@@ -465,6 +465,7 @@ func (s *spanScreen) clampRegion(r Region) Region {
 }
 
 func (s *spanScreen) moveCursor(dx, dy int, wrap bool, scroll bool) {
+	startY := s.cursorPos.Y
 	if wrap && s.autoWrap {
 		s.cursorPos.X += dx
 		for s.cursorPos.X < 0 {
@@ -481,7 +482,7 @@ func (s *spanScreen) moveCursor(dx, dy int, wrap bool, scroll bool) {
 	}
 
 	s.cursorPos.Y += dy
-	if scroll {
+	if scroll && startY >= s.topMargin && startY <= s.bottomMargin {
 		if s.cursorPos.Y < s.topMargin {
 			s.scroll(s.topMargin, s.bottomMargin, s.topMargin-s.cursorPos.Y)
 			s.cursorPos.Y = s.topMargin
@@ -490,9 +491,8 @@ func (s *spanScreen) moveCursor(dx, dy int, wrap bool, scroll bool) {
 			s.scroll(s.topMargin, s.bottomMargin, s.bottomMargin-s.cursorPos.Y)
 			s.cursorPos.Y = s.bottomMargin
 		}
-	} else {
-		s.cursorPos.Y = clamp(s.cursorPos.Y, 0, s.size.Y-1)
 	}
+	s.cursorPos.Y = clamp(s.cursorPos.Y, 0, s.size.Y-1)
 	if s.cursorPos.Y >= s.size.Y {
 		panic(fmt.Sprintf("moveCursor outside, %v %v  %v, %v, %v, %v", s.cursorPos, s.size, dx, dy, wrap, scroll))
 	}
